@@ -100,9 +100,18 @@ type mismatch struct {
 // davWorker runs a deterministic script on its own subtree /w<i>/ and
 // compares every result with what the same script yields alone (a private
 // model of that subtree).
-func davWorker(cl *webdav.Client, i, steps int, r *rand.Rand, ov *overlap, jitter bool) (model map[string]string, bad []mismatch) {
+//
+// shared: all workers live in ONE collection, /shared, each with names of its
+// own (w<i>-n<k>): disjoint resources with a common parent, so that whatever
+// the server creates next to a target (temporary and set-aside names) is
+// created in the same directory by everybody at once.
+func davWorker(cl *webdav.Client, i, steps int, r *rand.Rand, ov *overlap, jitter, shared bool) (model map[string]string, bad []mismatch) {
 	ctx := context.Background()
-	base := fmt.Sprintf("/w%d", i)
+	base, prefix := fmt.Sprintf("/w%d", i), "n"
+	if shared {
+		base, prefix = "/shared", fmt.Sprintf("w%d-n", i)
+	}
+	mine := func(p string) bool { return strings.HasPrefix(p, base+"/"+prefix) }
 	model = map[string]string{} // path -> content; dirs have content "\x00dir"
 	const dir = "\x00dir"
 	do := func(step int, kind string, f func() (string, string)) {
@@ -121,11 +130,13 @@ func davWorker(cl *webdav.Client, i, steps int, r *rand.Rand, ov *overlap, jitte
 			bad = append(bad, mismatch{i, step, kind, want, got})
 		}
 	}
-	do(0, "Mkdir", func() (string, string) {
-		err := cl.Mkdir(ctx, base)
-		model[base] = dir
-		return "0", fmt.Sprint(httpCode(err))
-	})
+	if !shared {
+		do(0, "Mkdir", func() (string, string) {
+			err := cl.Mkdir(ctx, base)
+			model[base] = dir
+			return "0", fmt.Sprint(httpCode(err))
+		})
+	}
 	files := func() []string {
 		var l []string
 		for p, c := range model {
@@ -137,7 +148,7 @@ func davWorker(cl *webdav.Client, i, steps int, r *rand.Rand, ov *overlap, jitte
 		return l
 	}
 	for s := 1; s <= steps; s++ {
-		name := fmt.Sprintf("%s/n%d", base, r.Intn(6))
+		name := fmt.Sprintf("%s/%s%d", base, prefix, r.Intn(6))
 		switch op := r.Intn(10); {
 		case op <= 2: // Create
 			content := fmt.Sprintf("w%d-s%d-%s", i, s, strings.Repeat("x", r.Intn(3000)))
@@ -202,6 +213,11 @@ func davWorker(cl *webdav.Client, i, steps int, r *rand.Rand, ov *overlap, jitte
 				return "content", fmt.Sprintf("other content (%d bytes, want %d)", len(b), len(c))
 			})
 		case op == 5: // ReadDir
+			if shared {
+				// listing the common collection touches everybody's members:
+				// not an operation on disjoint resources
+				continue
+			}
 			rec := r.Intn(2) == 0
 			do(s, "ReadDir", func() (string, string) {
 				l, err := cl.ReadDir(ctx, base, rec)
@@ -211,8 +227,8 @@ func davWorker(cl *webdav.Client, i, steps int, r *rand.Rand, ov *overlap, jitte
 				var got []string
 				for _, fi := range l {
 					p := strings.TrimSuffix(fi.Path, "/")
-					if p == base {
-						continue
+					if p == base || !mine(p) {
+						continue // the collection itself; in shared mode also the others' members
 					}
 					got = append(got, p)
 				}
@@ -336,7 +352,24 @@ func runDavSchedule(c *fw.Ctx, cfg schedCfg, idx int) {
 	root := filepath.Join(c.WorkDir, fmt.Sprintf("sched-%d", idx))
 	os.MkdirAll(root, 0755)
 	defer os.RemoveAll(root)
-	h := &webdav.Handler{FileSystem: webdav.LocalFileSystem(root)}
+	var fsys webdav.FileSystem = webdav.LocalFileSystem(root)
+	if (cfg.Rep+cfg.GOMAXPROCS)%2 == 1 {
+		// a slow file system: yields around every operation, sleeps now and
+		// then (monitor state under its own lock)
+		var dmu sync.Mutex
+		dr := c.Rand(fmt.Sprintf("dav-delay-%d-%d", idx, cfg.Rep), 0)
+		fsys = &doubles.SlowFS{FS: fsys, Delay: func() {
+			dmu.Lock()
+			k, d := dr.Intn(8), dr.Intn(6)
+			dmu.Unlock()
+			runtime.Gosched()
+			if k == 0 {
+				time.Sleep(time.Duration(20+d*40) * time.Microsecond)
+			}
+		}}
+		c.Observe("schedules", "webdav schedules over a slow file system", 1)
+	}
+	h := &webdav.Handler{FileSystem: fsys}
 	var hc webdav.HTTPClient
 	endpoint := "http://dav.test/"
 	if cfg.Transport == "tcp" {
@@ -365,6 +398,14 @@ func runDavSchedule(c *fw.Ctx, cfg schedCfg, idx int) {
 		req.ContentLength = 1 << 20
 		h.ServeHTTP(httptest.NewRecorder(), req)
 	}
+	shared := idx%3 == 0
+	if shared {
+		if err := os.Mkdir(filepath.Join(root, "shared"), 0755); err != nil {
+			c.Inconclusive(err.Error())
+			return
+		}
+		c.Observe("schedules", "webdav schedules with all workers in one collection", 1)
+	}
 	ov := newOverlap()
 	models := make([]map[string]string, cfg.N)
 	bads := make([][]mismatch, cfg.N)
@@ -376,7 +417,7 @@ func runDavSchedule(c *fw.Ctx, cfg schedCfg, idx int) {
 			defer wg.Done()
 			r := c.Rand(fmt.Sprintf("dav-%d-%d", idx, cfg.Rep), i)
 			<-start
-			models[i], bads[i] = davWorker(cl, i, cfg.Steps, r, ov, true)
+			models[i], bads[i] = davWorker(cl, i, cfg.Steps, r, ov, true, shared)
 		}(i)
 	}
 	c.Journal(cfg)
@@ -399,6 +440,9 @@ func runDavSchedule(c *fw.Ctx, cfg schedCfg, idx int) {
 		for p, v := range m {
 			want[strings.TrimPrefix(p, "/")] = v
 		}
+	}
+	if shared {
+		want["shared"] = "\x00dir"
 	}
 	var diffs []string
 	for p, v := range want {
